@@ -82,6 +82,7 @@ def gen(seed):
         if cands:
             plan.append({'site': 'layer.tearDown', 'ident': rng.choice(cands), 'a': 'raise',
                          'exc': 'NotImplementedError'})
+    _ws.gen_relpath(rng, world, m.discover(), opt, plan, 0.12)
     return {'property': ID, 'seed': seed, 'world': world, 'plan': plan, 'opt': opt,
             'sched': {'prng': seed}, 'knobs': {**({'defaults_split': rng.randint(0, 99)} if rng.random() < 0.3 else {}), 'pipe_capacity': rng.choice([64, 4096])},
             'j': rng.randint(2, 4)}
